@@ -2,7 +2,7 @@
 # usage: tools/selftest_alt.sh [<seeded-id>...]   like selftest_seeded.sh, but through tools/try_alt.sh (scratch worktree, VC_ALT):
 # /repo is not touched, so it can run next to other checks. Prints one line per change.
 cd /verif || exit 2
-ids="$@"; [ -z "$ids" ] && ids=$(ls seeded | grep -v INDEX)
+ids="$@"; [ -z "$ids" ] && ids=$(ls seeded | grep -E "^C[0-9]+-[0-9]+$")
 fail=0
 for id in $ids; do
   prop=$(python3 -c "import json;print(json.load(open('seeded/$id/meta.json'))['property'])")
